@@ -155,6 +155,27 @@ static void body(world* w, int h, hdesc d, pika::stop_token st)
         }
         break;
     }
+    case 8:
+    {
+        // blocked on a permit; the owner releases the permit and interrupts the thread right afterwards: the
+        // thread is woken (it is pending in a run queue) when the interruption arrives
+        int a = 4 + h;
+        call(a, "acq", h);
+        try
+        {
+            w->sem2[h]->acquire();
+            ret(a, 1);
+        }
+        catch (pika::thread_interrupted const&)
+        {
+            ret(a, 2);
+        }
+        catch (pika::exception const& e)
+        {
+            ret(a, e.get_error() == pika::error::yield_aborted ? -3 : -9);
+        }
+        break;
+    }
     case 3:
         for (int i = 0; i < 200000; ++i)
         {
@@ -272,9 +293,10 @@ int main(int argc, char** argv)
         {
             hdesc& d = ds[h];
             d.jthread = R.chance(1, 3);
-            d.body = (int) R.below(8);
+            d.body = (int) R.below(10);
+            if (d.body == 9) d.body = 8;
             if (d.body == 3 && !d.jthread) d.body = 1;
-            if ((d.body == 6 || d.body == 7) && d.jthread) d.body = 1;
+            if ((d.body == 6 || d.body == 7 || d.body == 8) && d.jthread) d.body = 1;
             d.yields = 1 + (int) R.below(4);
             d.pre_join_yields = (int) R.below(5);
             d.interrupt = (d.body == 1 || d.body == 5) && R.chance(1, 2);
@@ -289,7 +311,8 @@ int main(int argc, char** argv)
             if (d.end == 3 && !d.jthread) d.end = 0;
             if (d.body == 3) d.end = 3;                      // only destruction stops it
             if (d.body == 2 && d.end == 1) d.end = 0;
-            if (d.body == 6 || d.body == 7) d.end = R.chance(1, 2) ? 0 : 4;
+            if (d.body == 6 || d.body == 7 || d.body == 8) d.end = R.chance(1, 2) ? 0 : 4;
+            if (d.body == 8) d.interrupt = false;    // issued by the release-then-interrupt step instead
             d.join_spin = 0;
             if (!d.jthread && R.chance(2, 5))
             {
@@ -352,6 +375,24 @@ int main(int argc, char** argv)
                 {
                     for (int i = 0; i < (int) d.pre_join_yields / 2; ++i) pika::this_thread::yield();
                     w->sem[h]->release();
+                }
+                if (d.body == 8)
+                {
+                    for (int i = 0; i < d.interrupt_after; ++i) pika::this_thread::yield();
+                    call(a, "release", h);
+                    w->sem2[h]->release();
+                    ret(a, 1);
+                    for (int i = 0; i < (int) (d.pre_join_yields * 97 + h * 31) % 400; ++i) asm volatile("" ::: "memory");
+                    call(a, "interrupt", h);
+                    try
+                    {
+                        w->th[h]->interrupt();
+                        ret(a, 1);
+                    }
+                    catch (pika::exception const& e)
+                    {
+                        ret(a, e.get_error() == pika::error::thread_not_interruptable ? -4 : -9);
+                    }
                 }
                 if (d.body == 7)
                 {
